@@ -180,10 +180,10 @@ Section Proofs.
   Qed.
 
   Lemma pe_mono f f' lvs ts r : f <= f' -> pe f lvs ts = Some r -> pe f' lvs ts = Some r.
-  Proof. induction 1; intros H; [exact H|]. apply mono_S. auto. Qed.
+  Proof. intros Hle. induction Hle as [|m Hle IH]; intros H0; [exact H0|]. apply mono_S. auto. Qed.
 
   Lemma ploop_mono f f' ops lvs l ts r : f <= f' -> ploop f ops lvs l ts = Some r -> ploop f' ops lvs l ts = Some r.
-  Proof. induction 1; intros H; [exact H|]. apply mono_S. auto. Qed.
+  Proof. intros Hle. induction Hle as [|m Hle IH]; intros H0; [exact H0|]. apply mono_S. auto. Qed.
 
   (* ---------------------------------------------------------------- soundness: parser results are well formed *)
   Notation WFt := (WF (fun _ => True)).
